@@ -47,7 +47,7 @@ func checkProgSet(set TSet, name string, ctx Ctx, o SPrint) error {
 	e := newEngine(srcs)
 	sp := NewSpies()
 	sp.Install(e)
-	r := render(e, name, ctx.Go())
+	r := render(e, name, zooCtx(ctx, 0))
 	if r.Panic != "" {
 		return fmt.Errorf("engine panicked: %s; templates:%s", r.Panic, showSources(srcs))
 	}
@@ -181,6 +181,25 @@ func TestC09Truthiness(t *testing.T) {
 				if err := checkC09(c); err != nil {
 					r.FailEnum(t, "C09.flow", c, err)
 				}
+			}
+		}
+	}
+	// zero and non-zero values of every Go numeric width, typed empty and non-empty collections
+	// (context values only; the model sees their plain value)
+	typed := []*E{}
+	for _, w := range []string{"int8", "int16", "int32", "int64", "uint", "uint8", "uint16", "uint32", "uint64", "float32", "float64", "named"} {
+		typed = append(typed, ZT(Int(0), w), ZT(Int(4), w))
+	}
+	typed = append(typed, ZT(List(), "[]int"), ZT(List(Int(0)), "[]int"), ZT(List(), "[]string"), ZT(List(Str("")), "[]string"),
+		ZT(Hash(nil, nil), "map[string]int"), ZT(Hash([]string{"k"}, []*E{Int(0)}), "map[string]int"), ZT(Str(""), "named"), ZT(Str("x"), "named"))
+	for vi, v := range typed {
+		for fi, f := range forms {
+			ctx := Ctx{}
+			ctx.Set("x", v)
+			c := ProgCase{Ctx: ctx, Body: f(Var("x"))}
+			r.Case(fmt.Sprint("typed", vi, fi), true, PrintBody(c.Body, SPrint{})+" with x="+PrintE2(v), fmt.Sprintf("form:%d", fi), "typed-value")
+			if err := checkC09(c); err != nil {
+				r.FailEnum(t, "C09.flow", c, err)
 			}
 		}
 	}
